@@ -1,5 +1,8 @@
 use crate::idmap::LabelId;
 use crate::label_interner::{LabelInterner, LabelSnapshot};
+#[cfg(nervusdb_verif)]
+use nervusdb_api::verif::sync::{Arc, Mutex, RwLock};
+#[cfg(not(nervusdb_verif))]
 use std::sync::{Arc, Mutex, RwLock};
 
 pub(crate) fn published_label_snapshot(
